@@ -98,7 +98,7 @@ var (
 	VerifYield      func(site int, key uintptr, job *ScheduledJob)
 	VerifLoopSelect func(key uintptr, peek func() VerifSelectInfo) (mask int)
 	VerifArm        func(key uintptr, arm int, job *ScheduledJob)
-	VerifWaitSelect func(key uintptr, ctxDone func() bool) (hideDone bool)
+	VerifWaitSelect func(key uintptr, ctxDone func() bool) (answer int)
 )
 
 func verifKey(c interface{}) uintptr { return reflect.ValueOf(c).Pointer() }
@@ -225,14 +225,32 @@ type verifNoDoneCtx struct{ context.Context }
 
 func (verifNoDoneCtx) Done() <-chan struct{} { return nil }
 
+// Answers of the VerifWaitSelect hook.
+const (
+	VerifWaitFree         = 0 // leave the select alone
+	VerifWaitHideDone     = 1 // both arms ready: force the finished arm
+	VerifWaitHideFinished = 2 // both arms ready: force the ctx.Done arm
+)
+
 // verifWaitSelect parks Wait before its select. When both arms are ready the
-// simulator may hide the context's Done channel to force the finished arm.
+// simulator owns the choice: it hides the context's Done channel to force the
+// finished arm, or hides the finished channel to force the Done arm.
 func verifWaitSelect(s *Scheduler, ctx context.Context) context.Context {
 	if VerifWaitSelect == nil {
 		return ctx
 	}
-	if VerifWaitSelect(verifKey(s.readyc), func() bool { return ctx.Err() != nil }) {
+	switch VerifWaitSelect(verifKey(s.readyc), func() bool { return ctx.Err() != nil }) {
+	case VerifWaitHideDone:
 		return verifNoDoneCtx{ctx}
+	case VerifWaitHideFinished:
+		verifHideFinished(s)
 	}
 	return ctx
 }
+
+// verifHideFinished makes Wait's select see only the context: the Scheduler
+// Loop captured the channel it closes when it started, and nothing but this
+// one select of Wait reads the field afterwards.
+//
+//go:norace
+func verifHideFinished(s *Scheduler) { s.finishedc = nil }
